@@ -33,7 +33,7 @@ def lattice():
     def add(op, ident, **kw):
         c = {"op": op, "id": "%s/%s" % (op, ident)}
         for k, v in kw.items():
-            if isinstance(v, int) and not isinstance(v, bool) and k not in ("nagg", "np", "count", "level", "bits", "mbits", "mlen", "weight", "want", "got"):
+            if isinstance(v, int) and not isinstance(v, bool) and k not in ("nagg", "np", "count", "level", "bits", "mbits", "mlen", "weight", "want", "got", "plen", "extra"):
                 num(c, k, v)
             elif isinstance(v, list) and k == "m":
                 c[k] = [limbs(x) for x in v]
@@ -115,6 +115,16 @@ def lattice():
         add("s2m_poplar1", "count=%d" % cnt, nagg=2, count=cnt)
     for lv in [0, 6, 7, 8, 9, 65535]:
         add("vinit_poplar1_level", "bits=8,level=%d" % lv, bits=8, level=lv)
+    for plen in [0, 1, 2, 7, 8, 9, 255, 256, 65534, 65535, 65536, 65537, 70000, 131072]:
+        for shape in ["one", "two_sorted", "three_sorted", "two_unsorted", "two_equal", "mixed_length", "empty"]:
+            if (plen < 2 and shape == "three_sorted") or (plen == 0 and shape in ("two_sorted", "two_unsorted")):
+                continue
+            add("aggparam_new", "plen=%d,%s" % (plen, shape), plen=plen, shape=shape)
+    for level in [0, 6, 7, 8, 255, 256, 65534, 65535]:
+        for count, extra, srt in [(1, 0, True), (2, 0, True), (0, 0, True), (1, 1, True), (1, -1, True), (2, 0, False), (3, 0, True)]:
+            if level == 0 and count > 2:
+                continue
+            add("aggparam_decode", "level=%d,count=%d,extra=%d,sorted=%s" % (level, count, extra, srt), level=level, count=count, extra=extra, sorted=srt)
     for ln in [0, 2, 3, 4]:
         for op in ("agg_wrong_len", "unshard_wrong_len", "truncate_len", "decode_result_len"):
             add(op, "want=3,len=%d" % ln, want=3, got=ln)
